@@ -828,6 +828,8 @@ class Interp:
         try:
             if self.domain is not None and hasattr(self.domain, 'on_native'):
                 self.domain.on_native(None, (a, b), {})
+            if self.domain is not None and hasattr(self.domain, 'on_binop'):
+                self.domain.on_binop(op, a, b, node)
             return BINOPS[type(op)](a, b)
         except Raised as r:
             if r.where is None:
